@@ -47,3 +47,10 @@
         ; the content fits the input
         (bvule (rlp_tag a off len) len)
         (bvule (rlp_size a off len) (bvsub len (rlp_tag a off len))))))
+; minimal big-endian length of an unsigned 64-bit integer (1 for zero)
+(define-fun rlp_bytelen ((i (_ BitVec 64))) (_ BitVec 64)
+  (ite (bvult i #x0000000000000100) (_ bv1 64) (ite (bvult i #x0000000000010000) (_ bv2 64) (ite (bvult i #x0000000001000000) (_ bv3 64)
+  (ite (bvult i #x0000000100000000) (_ bv4 64) (ite (bvult i #x0000010000000000) (_ bv5 64) (ite (bvult i #x0001000000000000) (_ bv6 64)
+  (ite (bvult i #x0100000000000000) (_ bv7 64) (_ bv8 64)))))))))
+; canonical header length for a payload of the given size
+(define-fun rlp_headlen ((size (_ BitVec 64))) (_ BitVec 64) (ite (bvult size (_ bv56 64)) (_ bv1 64) (bvadd (_ bv1 64) (rlp_bytelen size))))
